@@ -41,6 +41,7 @@ from typing import Iterable
 
 import numpy as np
 import sympy as sym
+from sympy.printing.str import StrPrinter
 
 
 def numpy_to_blackbird(A, var_name):
@@ -85,6 +86,33 @@ def numpy_to_blackbird(A, var_name):
     script.append("")
 
     return script
+
+
+class _BlackbirdPrinter(StrPrinter):
+    """Prints SymPy expressions in Blackbird syntax.
+
+    In Blackbird a unary minus binds tighter than ``**``, so ``-a**2`` means ``(-a)**2``;
+    a negated product is therefore written as ``-(a**2)``.
+    """
+
+    def _print_Mul(self, expr):
+        res = super()._print_Mul(expr)
+        if res.startswith("-"):
+            return "-({})".format(res[1:])
+        return res
+
+
+def _expr_to_blackbird(expr):
+    """Converts a SymPy expression to a Blackbird expression, with the
+    free parameters written as ``{name}`` (measured registers ``qN`` are left as they are).
+
+    Args:
+        expr (sympy.Expr): the expression
+
+    Returns:
+        str: the Blackbird expression
+    """
+    return _BlackbirdPrinter().doprint(expr)
 
 
 def _list_to_blackbird(values):
@@ -452,7 +480,11 @@ class BlackbirdProgram:
                     elif isinstance(v, sym.Expr):
                         # argument contains free parameters
                         braces = {p: sym.Symbol("{" + str(p) + "}") for p in v.free_symbols}
-                        args.append(str(v.subs(braces)))
+                        args.append(_expr_to_blackbird(v.subs(braces)))
+
+                    elif isinstance(getattr(v, "expr", None), sym.Expr):
+                        # argument is a function of measured registers
+                        args.append(_expr_to_blackbird(v.expr))
 
                     else:
                         # anything that doesn't need to be dealt with as a special case,
@@ -495,7 +527,11 @@ class BlackbirdProgram:
                     elif isinstance(v, sym.Expr):
                         # kwarg contains free parameters
                         braces = {p: sym.Symbol("{" + str(p) + "}") for p in v.free_symbols}
-                        kwargs.append("{}={}".format(k, v.subs(braces)))
+                        kwargs.append("{}={}".format(k, _expr_to_blackbird(v.subs(braces))))
+
+                    elif isinstance(getattr(v, "expr", None), sym.Expr):
+                        # kwarg is a function of measured registers
+                        kwargs.append("{}={}".format(k, _expr_to_blackbird(v.expr)))
 
                     else:
                         kwargs.append("{}={}".format(k, v))
